@@ -39,7 +39,8 @@ type ManSpec struct {
 	Pad int `json:"pad,omitempty"`
 	// BadDesc, when > 0, makes the descriptor of the first reference untruthful:
 	// 1 = empty media type, 2 = malformed digest, 3 = size 0 with non-empty digest,
-	// 4 = (index only) the first child is described as an OCI image manifest whatever it really is.
+	// 4 = (index only) the first child is described as an OCI image manifest whatever it really is;
+	// 5, 6, 7 = like 1, 2, 3 for the subject's descriptor.
 	BadDesc int `json:"bad_desc,omitempty"`
 }
 
@@ -194,6 +195,11 @@ func (u *Universe) ManBytes(i int) []byte {
 	case 3:
 		subject = &ocispec.Descriptor{MediaType: MTImage, Digest: DanglingDigest(m.Salt), Size: 7}
 	}
+	if m.BadDesc >= 5 && subject != nil {
+		// 5, 6, 7: the subject's descriptor is the malformed one (empty media type, malformed digest, size
+		// 0 with the digest of something) - a subject may dangle, it may not be ill-formed
+		spoil(subject, m.BadDesc-4)
+	}
 	ann := map[string]string{"salt": fmt.Sprint(m.Salt)}
 	if m.Pad > 0 {
 		ann["pad"] = string(bytes.Repeat([]byte("p"), m.Pad))
@@ -217,7 +223,7 @@ func (u *Universe) ManBytes(i int) []byte {
 			}
 			im.Layers = append(im.Layers, d)
 		}
-		if m.BadDesc > 0 {
+		if m.BadDesc > 0 && m.BadDesc < 5 {
 			if len(im.Layers) > 0 {
 				spoil(&im.Layers[0], m.BadDesc)
 			} else {
@@ -236,7 +242,7 @@ func (u *Universe) ManBytes(i int) []byte {
 		}
 		if m.BadDesc == 4 && len(ix.Manifests) > 0 {
 			ix.Manifests[0].MediaType = MTImage
-		} else if m.BadDesc > 0 && len(ix.Manifests) > 0 {
+		} else if m.BadDesc > 0 && m.BadDesc < 5 && len(ix.Manifests) > 0 {
 			spoil(&ix.Manifests[0], m.BadDesc)
 		}
 		data, _ = json.Marshal(ix)
